@@ -3,7 +3,8 @@
    non-vacuity Examples in proofs/StoreSpecExamples.v.
 
    Layer A: Store.v (blockstore.ReadWrite, storage.StorageCar, internal/store) dispatched by
-   StoreSpec.impl_step; layer B: the reference map StoreSpec.spec_step.  [trace step s ops] is the
+   StoreSpec.impl_step for the front-ends FBs (OpenReadWrite: the blockstore owns the file), FBf
+   (OpenReadWriteFile: the caller's file stays open; Roots ignores the closed flag), FSt (StorageCar); layer B: the reference map StoreSpec.spec_step.  [trace step s ops] is the
    list of (state, result) pairs a history produces, [outs] its results.
 
    Hypotheses, written out:
@@ -123,7 +124,7 @@ Theorem C04_put_then_get :
     blen (enc_header (roots_opt nilroots roots) 1) < two63 ->
     forall s0 : wstate, open_new k o nilroots roots [] = Ok s0 ->
     forall (f : front) (ops : list sop) (c d : bytes) (p : cidp),
-    f = FBs \/ f = FSt true -> cid_parse c = Some p ->
+    f = FBs \/ f = FSt true \/ f = FBf -> cid_parse c = Some p ->
     (Forall (fun op =>
        match op with
        | OpPut c d =>
@@ -198,8 +199,9 @@ Proof. exact finalize_closes. Qed.
 Print Assumptions C04_finalize_closes.
 
 Theorem C04_discard_closes :
-  forall (hdrdec : bytes -> option (list bytes * N)) (s : wstate),
-    ws_closed (fst (impl_step hdrdec FBs s OpDiscard)) = true.
+  forall (hdrdec : bytes -> option (list bytes * N)) (f : front) (s : wstate),
+    is_bs f = true ->     (* either blockstore variant: on its own file (FBs) or on the caller's (FBf) *)
+    ws_closed (fst (impl_step hdrdec f s OpDiscard)) = true.
 Proof. exact discard_closes. Qed.
 Print Assumptions C04_discard_closes.
 
@@ -210,17 +212,18 @@ Theorem C04_after_close_errors :
     impl_step hdrdec f s (OpPut c d) = (s, OErr EClosed) /\
     impl_step hdrdec f s (OpHas c) = (s, OErr EClosed) /\
     (is_identity p = false -> f <> FSt false -> impl_step hdrdec f s (OpGet c) = (s, OErr EClosed)) /\
-    (f = FBs -> forall l, impl_step hdrdec f s (OpPutMany l) = (s, OErr EClosed)) /\
-    (f = FBs -> is_identity p = false -> impl_step hdrdec f s (OpGetSize c) = (s, OErr EClosed)) /\
-    (f = FBs -> impl_step hdrdec f s OpKeys = (s, OErr EClosed)).
+    (is_bs f = true -> forall l, impl_step hdrdec f s (OpPutMany l) = (s, OErr EClosed)) /\
+    (is_bs f = true -> is_identity p = false -> impl_step hdrdec f s (OpGetSize c) = (s, OErr EClosed)) /\
+    (is_bs f = true -> impl_step hdrdec f s OpKeys = (s, OErr EClosed)).
 Proof. exact after_close_errors. Qed.
 Print Assumptions C04_after_close_errors.
 
-(* once a store is closed (or, for the blockstore, finalized) the file never changes again, whatever
-   operations follow *)
+(* once a store is closed (or, for either blockstore variant, finalized) the file never changes again,
+   whatever operations follow -- in particular on the OpenReadWriteFile variant (FBf), where the
+   caller's file stays open after Close/Discard and a stray write would land in it *)
 Theorem C04_file_frozen_after_finalize :
   forall (hdrdec : bytes -> option (list bytes * N)) (f : front) (ops : list sop) (s : wstate),
-    ws_closed s = true \/ (f = FBs /\ ws_finalized s = true) ->
+    ws_closed s = true \/ (is_bs f = true /\ ws_finalized s = true) ->
     Forall (fun s' => ws_file s' = ws_file s) (map fst (trace (impl_step hdrdec f) s ops)).
 Proof. exact file_frozen. Qed.
 Print Assumptions C04_file_frozen_after_finalize.
